@@ -1192,6 +1192,12 @@ theorem mocked_mono (ops : List BOp) (m : List Loc) (x : Loc) (h : x ∈ m) : x 
   | nil => exact h
   | cons op rest ih => cases op <;> simp only [mockedAfter] <;> apply ih <;> simp [mem_insertSorted, h]
 
+theorem mem_chkSecs (tg : List Loc) (sec : Sec) (h : sec ∈ chkSecs tg) : ∃ f a, sec = .call f a := by
+  simp only [chkSecs, List.mem_flatMap, List.mem_cons, List.not_mem_nil, or_false] at h
+  obtain ⟨f, _, h | h⟩ := h
+  · exact ⟨f, 3, h⟩
+  · exact ⟨f, 1, h⟩
+
 theorem compile_writes (L : Layout) (tg : List Loc) (ops : List BOp) (m : List Loc) (sec : Sec) (hs : sec ∈ compileOps tg ops m)
     (f : Loc) (hf : f ∈ writesOf L sec) (hT : ∀ g, L.plh g ≠ f) : f ∈ mockedAfter ops m := by
   induction ops generalizing m with
@@ -1213,9 +1219,10 @@ theorem compile_writes (L : Layout) (tg : List Loc) (ops : List BOp) (m : List L
         exact mocked_mono rest _ f (by simp [mem_insertSorted])
       · exact ih _ hs
     | chk =>
-      simp only [compileOps, List.mem_append, List.mem_map] at hs
-      rcases hs with ⟨g, _, rfl⟩ | hs
-      · simp [writesOf] at hf
+      simp only [compileOps, List.mem_append] at hs
+      rcases hs with hs | hs
+      · obtain ⟨g, a, rfl⟩ := mem_chkSecs tg sec hs
+        simp [writesOf] at hf
       · exact ih _ hs
     | reset =>
       simp only [compileOps, List.mem_append, List.mem_map] at hs
@@ -1239,9 +1246,9 @@ theorem builder_tail (tg : List Loc) (ops : List BOp) (i : Nat) (sec : Sec) (hi 
   rw [List.getElem?_append_right hi] at h
   have hm := List.mem_of_getElem? h
   simp only [List.mem_append, List.mem_map] at hm
-  rcases hm with ⟨f, _, rfl⟩ | ⟨f, _, rfl⟩
+  rcases hm with ⟨f, _, rfl⟩ | hm
   · exact Or.inl ⟨f, rfl⟩
-  · exact Or.inr ⟨f, 3, rfl⟩
+  · exact Or.inr (mem_chkSecs tg sec hm)
 
 theorem builder_cover (L : Layout) (tg : List Loc) (ops : List BOp) (f : Loc) (hT : ∀ g, L.plh g ≠ f)
     (hw : ∃ sec ∈ builderProg tg ops, f ∈ writesOf L sec) :
@@ -1250,10 +1257,11 @@ theorem builder_cover (L : Layout) (tg : List Loc) (ops : List BOp) (f : Loc) (h
   have hm : f ∈ mockedAfter ops [] := by
     unfold builderProg at hs
     simp only [List.mem_append, List.mem_map] at hs
-    rcases hs with hs | ⟨g, hg, rfl⟩ | ⟨g, _, rfl⟩
+    rcases hs with hs | ⟨g, hg, rfl⟩ | hs
     · exact compile_writes L tg ops [] sec hs f hf hT
     · simp [writesOf] at hf; subst hf; exact hg
-    · simp [writesOf] at hf
+    · obtain ⟨g, a, rfl⟩ := mem_chkSecs tg sec hs
+      simp [writesOf] at hf
   obtain ⟨j, hj, hje⟩ := List.getElem_of_mem hm
   refine ⟨(compileOps tg ops []).length + j, Nat.le_add_right _ _, ?_⟩
   unfold builderProg
